@@ -96,7 +96,7 @@ func TestPrograms(t *testing.T) {
 		want, err := lang.Run(pr)
 		if err != nil {
 			// the generator must only produce programs the reference semantics define
-			e.SaveFail("generator", map[string]string{"src": src, "error": err.Error()}, "harness: reference evaluator cannot run a generated program")
+			os.WriteFile(filepath.Join(e.Scratch, "harness_bug.txt"), []byte(err.Error()+"\n"+src), 0o644) // a harness defect is inconclusive, never a violation
 			rt.Fatalf("harness bug: reference evaluator: %v\n%s", err, src)
 		}
 		c := Case{Src: src, Want: want}
